@@ -57,6 +57,7 @@ PROPERTY_RULES: Dict[str, List[Scoped]] = {
         _r("NAME-AS-KEY", ("utils.trees:LowestCommonAncestor",)),
         _r("UPDATE-PAIRING"), _r("RETENTION-GUARDS"), _r("POLARITY"),
         _r("CLOSURE-LATE-BINDING", ("compute.reconciliation:", "utils.dynamic_programming:")),
+        _r("RMQ-WINDOWS"), _r("EULER-INDEX"),
     ],
     "C02": [
         _r("SENTINEL", S_SPFS, S_SUBSEQ), _r("COSTKEYS", S_SPFS), _r("PRUNE", S_SPFS), _r("EVENT-SIG", S_SPFS),
@@ -75,6 +76,8 @@ PROPERTY_RULES: Dict[str, List[Scoped]] = {
         _r("UPDATE-PAIRING"), _r("RETENTION-GUARDS"), _r("POLARITY"),
         _r("ROOT-CONTENT", ("compute.super_reconciliation:",)),
         _r("CLOSURE-LATE-BINDING", ("compute.super_reconciliation:", "utils.dynamic_programming:")),
+        _r("RMQ-WINDOWS"), _r("EULER-INDEX"),
+        _r("EVAL-NO-SHORTCUT"),
     ],
     "C03": [
         _r("READONLY-DECODE", S_USPFS), _r("COSTKEYS", S_USPFS), _r("PRUNE", S_USPFS), _r("EVENT-SIG", S_USPFS),
@@ -93,6 +96,9 @@ PROPERTY_RULES: Dict[str, List[Scoped]] = {
         _r("UPDATE-PAIRING"), _r("RETENTION-GUARDS"), _r("POLARITY"),
         _r("ROOT-CONTENT", ("compute.unordered_super_reconciliation:",)),
         _r("CLOSURE-LATE-BINDING", ("compute.unordered_super_reconciliation:", "utils.dynamic_programming:")),
+        _r("KINDS-COMPLETE"),
+        _r("RMQ-WINDOWS"), _r("EULER-INDEX"),
+        _r("EVAL-NO-SHORTCUT"),
     ],
     "C04": [
         _r("DECODE-GUARD"), _r("DECODE-COMPLETE"), _r("LEAF-ANCHOR"), _r("SENTINEL"), _r("READONLY-DECODE"),
@@ -106,6 +112,7 @@ PROPERTY_RULES: Dict[str, List[Scoped]] = {
         _r("ROOT-CONTENT"),
         _r("CLOSURE-LATE-BINDING", S_COMPUTE + S_DP + S_MODEL), _r("REFINEMENT-PAIRING"), _r("MAPPING-KEYING"), _r("STALE-INPUT"), _r("TREE-WRITE-ARGS"),
         _r("PARSE-READONLY"),
+        _r("BRANCH-COMPLETE-ASSIGN", S_COMPUTE + S_MODEL), _r("ROOT-ORDER-SOURCE"),
     ],
     "C05": [
         _r("POLICY-FLOW"), _r("DECODE-PRODUCT"), _r("RESULT-SCOPE"), _r("PRUNE"), _r("UPDATE-PAIRING"),
@@ -124,6 +131,8 @@ PROPERTY_RULES: Dict[str, List[Scoped]] = {
         _r("READONLY-INPUT"),
         _r("ROOT-CONTENT"),
         _r("CLOSURE-LATE-BINDING", S_COMPUTE + S_DP),
+        _r("KINDS-COMPLETE"),
+        _r("EVAL-NO-SHORTCUT"),
     ],
     "C06": [
         _r("MODEL-TABLE"), _r("LABEL-SIBLINGS"), _r("EVENT-EXHAUSTIVE"), _r("EVENT-TABLE"), _r("CONSERVED-SIDE"),
@@ -134,6 +143,8 @@ PROPERTY_RULES: Dict[str, List[Scoped]] = {
         _r("SEGMENT-MACHINE"), _r("BIT-ORDER"), _r("COST-NO-ROUNDING"),
         _r("EVAL-NO-SHORTCUT"),
         _r("NAME-AS-KEY", ("utils.trees:LowestCommonAncestor",)),
+        _r("DICT-KEYS"),
+        _r("RMQ-WINDOWS"), _r("EULER-INDEX"),
     ],
     "C07": [
         _r("LCA-PROPAGATE"), _r("TRAVERSAL", ("compute.reconciliation:reconcile_lca",)),
@@ -145,6 +156,7 @@ PROPERTY_RULES: Dict[str, List[Scoped]] = {
         _r("PRIVATE-INDEX"),
         _r("NAME-AS-KEY", ("utils.trees:LowestCommonAncestor",)),
         _r("TREE-ITER-EXPLICIT", ("compute.reconciliation:",)),
+        _r("FIELD-SOURCE", ("model.reconciliation:ReconciliationInput",)),
     ],
     "C08": [
         _r("TREE-WRITE-ARGS"), _r("FIELDS-SERIALISED"), _r("DICT-KEYS"), _r("FEATURE-COPY"),
@@ -160,6 +172,7 @@ PROPERTY_RULES: Dict[str, List[Scoped]] = {
         _r("ROOT-CONTENT"),
         _r("REFINEMENT-PAIRING"),
         _r("PARSE-READONLY"),
+        _r("TREE-AS-GIVEN"),
     ],
     "C09": [
         _r("MIRROR"), _r("CLASS-DOMAIN"), _r("COST-HOMOGENEOUS"), _r("READONLY-DECODE"),
@@ -172,6 +185,8 @@ PROPERTY_RULES: Dict[str, List[Scoped]] = {
         _r("COMBINATOR-TOTAL"),
         _r("POLICY-FLOW"),
         _r("CLOSURE-LATE-BINDING", S_COMPUTE + S_DP),
+        _r("KINDS-COMPLETE"),
+        _r("UPDATE-PAIRING"), _r("RETENTION-GUARDS"), _r("POLARITY"), _r("RESULT-SCOPE"),
     ],
     "C10": [
         _r("BASE-EXT-SHARE"), _r("EVENT-SIG"), _r("COSTKEYS"), _r("SIBLING-PAIRING"), _r("READONLY-DECODE"),
@@ -185,6 +200,9 @@ PROPERTY_RULES: Dict[str, List[Scoped]] = {
         _r("COMBINATOR-TOTAL"),
         _r("ROOT-CONTENT"),
         _r("CLOSURE-LATE-BINDING", S_COMPUTE + S_DP),
+        _r("KINDS-COMPLETE"),
+        _r("UPDATE-PAIRING"), _r("RETENTION-GUARDS"), _r("POLARITY"), _r("RESULT-SCOPE"),
+        _r("GAIN-AT-LCA"),
     ],
     "C11": [
         _r("DICT-KEYS"), _r("FIELDS-SERIALISED"), _r("TREE-WRITE-ARGS"), _r("ENUM-DISJOINT"), _r("MAPPING-KEYING"),
@@ -204,6 +222,7 @@ PROPERTY_RULES: Dict[str, List[Scoped]] = {
         _r("TREE-WRITE-ARGS"), _r("KEY-GUARD", S_CLI + S_MODEL), _r("COST-KEY-RESOLUTION"), _r("ANCHOR-SET"), _r("CLI-FLOW-TABLE"), _r("DRAW-ANCHOR-SIDES"),
         _r("FEATURE-COPY"), _r("FINITE-ARITH"), _r("COST-NO-ROUNDING"), _r("TREE-ITER-EXPLICIT", S_CLI + S_MODEL),
         _r("IDENTITY-KEYS"), _r("EVENT-SIG"), _r("CLASS-DOMAIN"), _r("MIRROR"),
+        _r("BRANCH-COMPLETE-ASSIGN"), _r("JSON-INFINITE-COSTS"), _r("MAPPING-KEYING"),
     ],
     "C13": [
         _r("KIND-EXHAUSTIVE"), _r("KIND-AGREE"), _r("ONE-EVENT-NODE"), _r("ONE-ARROW"), _r("LOSS-MARKERS"),
@@ -214,6 +233,7 @@ PROPERTY_RULES: Dict[str, List[Scoped]] = {
         _r("LEAF-MAP-DOMAIN"), _r("ANCHOR-SET"), _r("DRAW-ANCHOR-SIDES"),
         _r("FINITE-ARITH"),
         _r("KIND-ENUM-BASE"),
+        _r("BRANCH-COMPLETE-ASSIGN", S_RENDER),
     ],
     "C14": [
         _r("SIGMA-INVARIANCE"), _r("SIGMA-CLOSURE"), _r("SOLVER-STATELESS", ("render.layout:", "utils.geometry:")),
@@ -222,6 +242,7 @@ PROPERTY_RULES: Dict[str, List[Scoped]] = {
         _r("FINITE-ARITH"), _r("ANCHOR-SET"), _r("SUBTREE-BOX"), _r("DRAW-ANCHOR-SIDES"),
         _r("READONLY-INPUT", S_RENDER), _r("IDENTITY-KEYS"),
         _r("GEOM-NO-ORDER"),
+        _r("BRANCH-COMPLETE-ASSIGN", S_RENDER),
     ],
     "C15": [
         _r("TEMPLATE-BRACES"), _r("TEMPLATE-TERMINATED"), _r("PICTURE-ENV"), _r("COLOR-INTERN"),
@@ -233,6 +254,7 @@ PROPERTY_RULES: Dict[str, List[Scoped]] = {
         _r("WIDTH-VERBATIM"),
         _r("READONLY-INPUT", S_RENDER),
         _r("WRAP-AFTER-ESCAPE"), _r("DRAW-COLOR-OWN"),
+        _r("LABEL-LINEBREAKS"), _r("LOSS-COLOR-OWN"),
     ],
     "C16": [
         _r("UPDATE-PAIRING"), _r("RETENTION-GUARDS"), _r("POLARITY"), _r("PROXY-NONE"), _r("COMBINE-PRODUCT"),
@@ -275,6 +297,7 @@ PROPERTY_RULES: Dict[str, List[Scoped]] = {
         _r("ITERABLE-ONCE", S_TREES),
         _r("BINARY-COARSENINGS"),
         _r("TRIPLES-SOURCE"), _r("CHAINED-ASSIGN-ORDER", ("utils.disjoint_set:", "utils.trees:")),
+        _r("TRIPLES-RECURSION"),
     ],
 }
 
@@ -745,6 +768,29 @@ _DECIDED_ROUND7 = {
     'C19': ['the ordering routines work on the graph they are given, not on a reduced or rebuilt one (GRAPH-AS-GIVEN)'],
     'C20': ['unite links only roots: both sides of every store into the parent table are find() results (GROUPS-PAIRING link-roots)'],
 }
+_DECIDED_ROUND8 = {
+    'C01': ['the range-minimum structure under the ancestry oracle: windows, level count, only empty ranges refused (RMQ-WINDOWS), Euler indices and a table over the whole tour (EULER-INDEX)'],
+    'C02': ['the range-minimum structure and Euler indices under the ancestry oracle (RMQ-WINDOWS, EULER-INDEX); the precedence graph is built from ALL leaf syntenies and no made-up order is used when no linear extension exists (ROOT-ORDER-SOURCE); every species is tried as host of the root object (RESULT-SCOPE root hosts); the evaluator that ranks the decoded solutions has no shortcut (EVAL-NO-SHORTCUT)'],
+    'C03': ['both synteny kinds are tabulated for every (object, species) (KINDS-COMPLETE); RMQ-WINDOWS, EULER-INDEX, EVAL-NO-SHORTCUT as for C02'],
+    'C04': ['no local is read after a conditional that assigns it on some branches only (BRANCH-COMPLETE-ASSIGN); the precedence graph covers all leaf syntenies, no fallback order (ROOT-ORDER-SOURCE)'],
+    'C05': ['both synteny kinds are tabulated (KINDS-COMPLETE); no conditional expression chooses which batch of candidates an update receives by comparing values (CANDIDATE-GUARDS); no shortcut in the evaluator that ranks the solutions (EVAL-NO-SHORTCUT)'],
+    'C06': ['a key of the dictionary form that is written only under a condition is read back with the matching default (DICT-KEYS conditional-key); the walk of the evaluator is never cut short by break / continue (EVAL-NO-SHORTCUT); RMQ-WINDOWS, EULER-INDEX under the distances it counts'],
+    'C07': ['an explicit leaf assignment is read back through its parser from its own entry, not through the inference from names (FIELD-SOURCE parsed-from-own-entry)'],
+    'C08': ['binarize removes no node and answers for the tree it is given (TREE-AS-GIVEN)'],
+    'C09': ['both kinds tabulated (KINDS-COMPLETE); ties recognised by value equality (UPDATE-PAIRING, RETENTION-GUARDS, POLARITY); every species tried as root host, result entry fed inside all loops (RESULT-SCOPE)'],
+    'C10': ['both kinds tabulated (KINDS-COMPLETE); gains at the LCA of all carriers (GAIN-AT-LCA); UPDATE-PAIRING, RETENTION-GUARDS, POLARITY, RESULT-SCOPE as for C09'],
+    'C12': ['no local read after a conditional that assigns it on some branches only - a gene-free ancestral species must not make the layout fail (BRANCH-COMPLETE-ASSIGN); the JSON writer accepts infinite costs (JSON-INFINITE-COSTS); names are resolved exactly (MAPPING-KEYING)'],
+    'C13': ['no call of _add_losses outside the handling of an event (LOSS-MARKERS no-other-loss-source); BRANCH-COMPLETE-ASSIGN on the layout code'],
+    'C14': ['trunk lemma, proved symbolically with the child trunks modelled as rectangles read from utils/geometry.py: the trunks of two sibling species never overlap along the across axis, also when a trunk sticks out of its box (SUBTREE-BOX sibling-trunks-disjoint); BRANCH-COMPLETE-ASSIGN on the layout code'],
+    'C15': ['wrapped labels reach TeX with TeX line breaks at every use (LABEL-LINEBREAKS); loss nodes take the colour of their own lineage on every path of the handler, also after the children were swapped (LOSS-COLOR-OWN)'],
+    'C16': ['Entry(value, tags, merge_policy=...) and Entry(value, tags, retention_policy=...) keep the policy that was given (ENTRY-CTOR single-policy cases)'],
+    'C17': ['only empty ranges are refused, decided over all ranges within data of length 1..6 (RMQ-WINDOWS only-empty-refused); the table indexes the whole tour (EULER-INDEX rmq-over-tour); the derived queries read the index, never `.up` of a node (DERIVED-QUERIES)'],
+    'C18': ['mask_from_subseq / subseq_from_mask answer from the scan alone: no shortcut return, nothing depending on the type of the sequences (BIT-ORDER answer-from-the-scan)'],
+    'C20': ['the triples of a group are all triples of the call inside the group; AllTrees answers [] only on the verdict of OneTree (TRIPLES-RECURSION)'],
+}
+for _k8, _v8 in _DECIDED_ROUND8.items():
+    _DECIDED_ROUND7.setdefault(_k8, [])
+    _DECIDED_ROUND7[_k8] = _DECIDED_ROUND7[_k8] + _v8
 for _k7, _v7 in _DECIDED_ROUND7.items():
     _DECIDED_ROUND5.setdefault(_k7, [])
     _DECIDED_ROUND5[_k7] = _DECIDED_ROUND5[_k7] + _v7
